@@ -122,6 +122,7 @@ var varCoq = map[string]string{
 	"REQUEST_COOKIES": "VReqCookies", "REQUEST_COOKIES_NAMES": "VReqCookiesNames", "TX": "VTx",
 	"REQUEST_URI": "VReqUri", "REQUEST_METHOD": "VReqMethod", "QUERY_STRING": "VQueryString",
 	"MATCHED_VAR": "VMatchedVar", "ARGS_COMBINED_SIZE": "VArgsCombinedSize",
+	"MATCHED_VAR_NAME": "VMatchedVarName", "MATCHED_VARS": "VMatchedVars", "MATCHED_VARS_NAMES": "VMatchedVarsNames",
 }
 
 var keyedVars = []string{"ARGS", "ARGS_GET", "ARGS_POST", "ARGS_NAMES", "ARGS_GET_NAMES", "ARGS_POST_NAMES",
@@ -873,6 +874,122 @@ func genSelectionRules(r *rand.Rand, q *Request) []Rule {
 	return rules
 }
 
+// MATCHED_* focused rule sets.  tx.matchVariable runs at every match, so a target reads what the
+// EARLIER targets of the same link (and earlier links / rules) matched last.  MATCHED_VAR and
+// MATCHED_VAR_NAME depend on the order of the matches, so every producer before a read is
+// order-safe: single-valued variables, counts, string-key selectors over a request whose folded
+// keys have one spelling each (repeated identical names are fine: a bucket keeps insertion order),
+// multiMatch on those.  MATCHED_VARS / MATCHED_VARS_NAMES (whole collection, random bucket order)
+// are read only after the last MATCHED_VAR / MATCHED_VAR_NAME read of the rule set.
+func genRequestSafe(r *rand.Rand) *Request {
+	q := &Request{Method: pick(r, []string{"GET", "POST"}), Path: pick(r, []string{"/", "/p"})}
+	keys := []string{"a", "b", "ab", "a-b", "12"}
+	vals := []string{"x", "X", "", "a b", "%41", "1", "10", "abc", "x"}
+	q.Get = genPairs(r, 1+r.Intn(4), keys, vals)
+	q.Post = genPairs(r, r.Intn(3), keys, vals)
+	q.Hdr = genPairs(r, 1+r.Intn(2), []string{"X-A", "b", "X-Id"}, vals)
+	q.Cookie = genPairs(r, r.Intn(3), keys, []string{"x", "X", "1", "abc"})
+	return q
+}
+
+func genSafeItem(r *rand.Rand, q *Request) Item {
+	switch r.Intn(10) {
+	case 0, 1:
+		return Item{Var: pick(r, []string{"REQUEST_METHOD", "REQUEST_URI", "QUERY_STRING", "ARGS_COMBINED_SIZE"}), Sel: Sel{Kind: "all"}}
+	case 2:
+		v := pick(r, keyedVars)
+		return Item{Var: v, Count: true, Sel: genSel(r, v, false, q)}
+	}
+	v := pick(r, []string{"ARGS", "ARGS_GET", "ARGS_GET", "ARGS_POST", "ARGS_NAMES", "ARGS_GET_NAMES", "REQUEST_HEADERS", "REQUEST_COOKIES", "REQUEST_HEADERS_NAMES"})
+	k := pick(r, []string{"a", "b", "ab"})
+	if ks := requestKeys(q, v); len(ks) > 0 && r.Intn(5) > 0 {
+		k = flipCase(r, ks[r.Intn(len(ks))])
+	}
+	return Item{Var: v, Sel: Sel{Kind: "str", KeyHex: hx(k)}}
+}
+
+func genMatchedRules(r *rand.Rand, q *Request) []Rule {
+	ph := 1 + r.Intn(2)
+	var rules []Rule
+	n := 1 + r.Intn(3)
+	for id := 1; id <= n; id++ {
+		ru := Rule{ID: id, Phase: ph}
+		if r.Intn(6) == 0 {
+			ru.Links = []Link{{Action: true, Setvars: [][2]string{{hx("a"), hx("x")}}}}
+			rules = append(rules, ru)
+			continue
+		}
+		nl := []int{1, 1, 2, 2, 3}[r.Intn(5)]
+		for k := 0; k < nl; k++ {
+			l := Link{Op: "unconditionalMatch", Multi: r.Intn(5) == 0}
+			np := r.Intn(3) // 0 / 1 / 2 producers before (and after) the reads
+			for i := 0; i < np; i++ {
+				l.Items = append(l.Items, genSafeItem(r, q))
+			}
+			nr := 1 + r.Intn(2)
+			for i := 0; i < nr; i++ {
+				it := Item{Var: pick(r, []string{"MATCHED_VAR", "MATCHED_VAR", "MATCHED_VAR_NAME", "MATCHED_VARS", "MATCHED_VARS_NAMES"}), Sel: Sel{Kind: "all"}}
+				if r.Intn(8) == 0 {
+					it.Count = true
+				}
+				pos := r.Intn(len(l.Items) + 1) // before, between or after the producers
+				l.Items = append(l.Items[:pos], append([]Item{it}, l.Items[pos:]...)...)
+			}
+			if r.Intn(4) == 0 {
+				l.Items = append(l.Items, Item{Neg: true, Var: pick(r, []string{"MATCHED_VARS", "MATCHED_VARS_NAMES", "MATCHED_VAR"}), Sel: Sel{Kind: "all"}})
+			}
+			switch r.Intn(6) {
+			case 0:
+				l.Op, l.ArgHex = "streq", hx(pick(r, []string{"x", "X", "abc", "1"}))
+			case 1:
+				l.Op, l.ArgHex = "contains", hx(pick(r, []string{"x", "a", "A", "ARGS", ":"}))
+			case 2:
+				l.Op, l.ArgHex, l.Neg = "streq", hx("zzz"), true
+			case 3:
+				l.Op, l.ArgHex = "beginsWith", hx(pick(r, []string{"ARGS_GET:", "ARGS", "x", "REQUEST"}))
+			}
+			if r.Intn(3) == 0 {
+				l.Tfs = []string{pick(r, []string{"lowercase", "uppercase", "length", "urlDecode", "hexEncode"})}
+			}
+			ru.Links = append(ru.Links, l)
+		}
+		rules = append(rules, ru)
+	}
+	// MATCHED_VARS / MATCHED_VARS_NAMES reads yield matches in Go's map order: keep them only after the
+	// last MATCHED_VAR / MATCHED_VAR_NAME read (evaluation order = rule, link, item order: one phase)
+	lastRead := [3]int{-1, -1, -1}
+	for ri := range rules {
+		for li := range rules[ri].Links {
+			for ii, it := range rules[ri].Links[li].Items {
+				if !it.Neg && (it.Var == "MATCHED_VAR" || it.Var == "MATCHED_VAR_NAME") {
+					lastRead = [3]int{ri, li, ii}
+				}
+			}
+		}
+	}
+	before := func(ri, li, ii int) bool {
+		a, b := [3]int{ri, li, ii}, lastRead
+		for k := 0; k < 3; k++ {
+			if a[k] != b[k] {
+				return a[k] < b[k]
+			}
+		}
+		return false
+	}
+	for ri := range rules {
+		for li := range rules[ri].Links {
+			l := &rules[ri].Links[li]
+			for ii := range l.Items {
+				it := &l.Items[ii]
+				if !it.Neg && !it.Count && (it.Var == "MATCHED_VARS" || it.Var == "MATCHED_VARS_NAMES") && before(ri, li, ii) {
+					it.Var = "MATCHED_VAR"
+				}
+			}
+		}
+	}
+	return rules
+}
+
 // every string a transformation of this request can be applied to first
 func requestStrings(q *Request) []string {
 	uri, query, hdrs, _ := q.wire()
@@ -1195,7 +1312,7 @@ func Run(cfg vh.Config) (*vh.Result, error) {
 			}
 		}
 
-		n := cfg.Pick(800, 10000)
+		n := cfg.Pick(700, 9000)
 		for i := 0; i < n; i++ {
 			q := genRequest(rng)
 			rn.addTx(genRules(rng, q), q, "")
@@ -1204,6 +1321,11 @@ func Run(cfg vh.Config) (*vh.Result, error) {
 			q := genRequest(rng)
 			rn.addTx(genSelectionRules(rng, q), q, "")
 			res.InputDistribution["selection_focused"]++
+		}
+		for i := 0; i < cfg.Pick(250, 3000); i++ {
+			q := genRequestSafe(rng)
+			rn.addTx(genMatchedRules(rng, q), q, "")
+			res.InputDistribution["matched_var_focused"]++
 		}
 		if cfg.Thorough() {
 			rn.exhaustive()
